@@ -18,6 +18,9 @@ CLAIMED = {
  "C08": ("deterministic simulation with crash injection: victims are killed at PRNG-chosen ABCI boundaries (also during handshake replay), restarted from a byte copy of the open data directory through the real Handshaker; Info/handshake/transcript/liveness oracles",
          "Seeded search over crash points x block histories, including repeated crashes and crashes during recovery; after restart Info must equal the victim's last completed commit, the real Handshaker must complete, every re-executed block must reproduce the reference's results, and victims must reach the tip once faults stop.",
          "Crash = process death (nothing the OS accepted is lost); power-loss/torn writes are not modelled. Tendermint's state/block/tx-index DBs are MemDBs that survive the crash unchanged; tx index is fed when the replica's Tendermint state reaches a height."),
+ "C09": ("deterministic simulation at the storage seam: seeded operation sequences incl. dirty reopen (byte copy of the open goleveldb dir) and abandoned blocks, compared step by step with a three-layer map model and with a hash twin that executes only the surviving writes",
+         "Seeded search (heavy sampling of short sequences plus long ones) over set/delete/get/exists/sessions/block commits/versioned reads/iteration/reopen on State over ChainState over MemDB and goleveldb; every read, existence answer, versioned read inside the retained window, post-reopen version/hash/content and root hash is checked. Sampling, not exhaustive enumeration.",
+         "Values are non-empty and never equal the in-band tombstone marker; gas store either absent or effectively unlimited (behaviour after gas exhaustion is not stated by the property); versions older than the rotation window may be gone; keys only present in the block cache are not required to be iterated (property is silent)."),
 }
 NOT_YET = {}  # filled below
 
